@@ -36,7 +36,7 @@ def verify_function(world, target, contract, timeout_ms=20000):
         res["status"] = "undecided"
         res["undecided_reason"] = "function not found in the current source tree"
         return res
-    if isinstance(ref.node, ast.AsyncFunctionDef):
+    if isinstance(ref.node, ast.AsyncFunctionDef) and not contract.coroutine:
         res["status"] = "undecided"
         res["undecided_reason"] = "async function: outside the verified subset (A3)"
         return res
@@ -175,6 +175,10 @@ def run_path(world, it, ref, contract):
                         g = it.spec_eval(clause, env2, ref, old=old)
                     except Unsupported as e:
                         if "unknown name" in str(e):
+                            from .interp import _never_bound
+                            if _never_bound(fnode, str(e)):
+                                it.oblige("EXIT", f"{clause} [{e}: the function no longer binds it]",
+                                          False, fnode.lineno)
                             continue   # a local that is not bound on this return path
                         raise
                     it.oblige("EXIT", clause, g, fnode.lineno)
